@@ -446,10 +446,113 @@ func genTime(c *hx.Ctx) {
 	}
 }
 
+// genHuge: huge wheels (a size class of its own: ring sizes around 2^16 and beyond), sequential requests only.
+func genHuge(c *hx.Ctx) {
+	sizes := []int{65535, 65536, 65537, 70000, 131072, 200000}
+	emit := func(class string, n int, st int64, pre int, ops []op) {
+		c.Emit("huge %d %d %d %s", n, st, pre, opsString(ops))
+		c.Count(class)
+	}
+	bounds := func(n int, st int64) []int64 {
+		N := int64(n)
+		return []int64{0, st, (N-1)*st - 1, (N - 1) * st, N*st - 1, (N / 2) * st, 65535 * st, 65536 * st, 65537 * st, 65538*st - 1}
+	}
+	inRange := func(n int, st int64, d int64) bool { return d >= 0 && d < int64(n)*st }
+	// small wheels through the same code path (the driver cross-checks its closed form against the LTS here)
+	for _, n := range []int{1, 2, 3, 8} {
+		for pre := 0; pre <= 3; pre++ {
+			var ops []op
+			ops = append(ops, op{kind: 'n', d: int64(n-1) * 10})
+			for q := 0; q < n; q++ {
+				ops = append(ops, op{kind: 'r', hasArg: true, d: int64(q)*10 + int64(q%2)*9})
+			}
+			ops = append(ops, op{kind: 'r'}, op{kind: 'r', hasArg: true, d: int64(n) * 10})
+			emit("huge_small_crosscheck", n, 10, pre, ops)
+		}
+	}
+	for _, n := range sizes {
+		st := int64(1000)
+		bs := bounds(n, st)
+		if !c.Thorough() {
+			// quick: one chain per size with the most telling boundaries (longest interval, ring-size boundaries)
+			var ops []op
+			ops = append(ops, op{kind: 'n', d: int64(n)*st - 1})
+			for _, d := range []int64{65537 * st, 65536 * st, 0} {
+				if inRange(n, st, d) {
+					ops = append(ops, op{kind: 'r', hasArg: true, d: d})
+				}
+			}
+			ops = append(ops, op{kind: 'r', hasArg: true, d: int64(n) * st}) // out of range: panics
+			emit("huge_boundary", n, st, c.Rng.Intn(3), ops)
+			for _, d := range bs {
+				if inRange(n, st, d) {
+					emit("huge_boundary", n, st, c.Rng.Intn(4), []op{{kind: 'n', d: d}})
+				}
+			}
+			continue
+		}
+		// thorough: every boundary as NewTimer and as Reset argument, at several wheel phases, plus random intervals
+		for _, pre := range []int{0, 1, n - 1, n, n + 1, 65536} {
+			var ops []op
+			first := bs[c.Rng.Intn(len(bs))]
+			if !inRange(n, st, first) {
+				first = int64(n)*st - 1
+			}
+			ops = append(ops, op{kind: 'n', d: first})
+			for k := 0; k < 3; k++ {
+				d := bs[c.Rng.Intn(len(bs))]
+				if inRange(n, st, d) {
+					ops = append(ops, op{kind: 'r', hasArg: true, d: d})
+				}
+			}
+			ops = append(ops, op{kind: 'r'})
+			emit("huge_boundary", n, st, pre, ops)
+		}
+		for _, d := range bs {
+			if inRange(n, st, d) {
+				emit("huge_boundary", n, st, c.Rng.Intn(4), []op{{kind: 'n', d: d}})
+			} else {
+				emit("huge_out_of_range", n, st, 0, []op{{kind: 'n', d: d}})
+			}
+		}
+		for i := 0; i < 6; i++ {
+			st2 := int64(c.Rng.Pick([]int{1, 7, 1000000}))
+			var ops []op
+			ops = append(ops, op{kind: 'n', d: int64(c.Rng.U64() % uint64(int64(n)*st2))})
+			for k := 0; k < 2; k++ {
+				ops = append(ops, op{kind: 'r', hasArg: true, d: int64(c.Rng.U64() % uint64(int64(n)*st2))})
+			}
+			emit("huge_random", n, st2, c.Rng.Intn(n), ops)
+		}
+	}
+	// range check / bucket index / constructor on huge wheels (cheap: the wheel never ticks)
+	for _, n := range sizes {
+		for _, st := range []int64{1, 1000, 1000000000} {
+			bs := bounds(n, st)
+			bs = append(bs, int64(n)*st, int64(n)*st+1, -1)
+			for _, base := range bs {
+				arg := "-"
+				if c.Rng.Bool() {
+					arg = fmt.Sprint(bs[c.Rng.Intn(len(bs))])
+				}
+				c.Emit("pure %d %d %d %s", st, n, base, arg)
+				c.Count("pure_huge")
+			}
+		}
+	}
+	for _, n := range []int{65536, 65537, 200000} {
+		c.Emit("ctor %d %d", 1000000, n)
+		c.Count("ctor")
+	}
+}
+
 func gen(c *hx.Ctx) {
 	only := os.Getenv("C03_ONLY") // debugging aid: pure | race | time
 	if only == "" || only == "pure" {
 		genPure(c)
+	}
+	if only == "" || only == "huge" {
+		genHuge(c)
 	}
 	if only == "" || only == "race" {
 		genRace(c)
